@@ -81,8 +81,38 @@ fn stub_verify_aggregate(msg: &[u8], vks: &[BlsVerificationKey], sigs: &[BlsSign
 use crate::signature_scheme::BlsVerificationKey;
 
 fn stub_random_state() -> std::hash::RandomState {
-    // fixed keys: HashSet becomes executable; its behaviour as a set does not depend on the keys
+    // fixed keys: HashSet::new becomes executable (no OS randomness)
     unsafe { std::mem::transmute::<(u64, u64), std::hash::RandomState>((0u64, 0u64)) }
+}
+
+// ---- contract stubs of std::collections::HashSet<u64> (assumed contract on the dependency: it implements a finite set) ----
+// preliminary_verify uses exactly one set (unique_indices) and only new / insert / len. Executing hashbrown symbolically
+// (SipHash + SIMD group probing) does not finish; the set's contents are kept in a ghost array instead.
+const SET_CAP: usize = 8;
+static mut SET: [u64; SET_CAP] = [0; SET_CAP];
+static mut SET_N: usize = 0;
+
+fn stub_hashset_insert<T: Eq + std::hash::Hash, S: std::hash::BuildHasher, A: std::alloc::Allocator>(_set: &mut HashSet<T, S, A>, value: T) -> bool {
+    assert!(std::mem::size_of::<T>() == 8);
+    let v: u64 = unsafe { std::mem::transmute_copy(&value) };
+    std::mem::forget(value);
+    unsafe {
+        let mut i = 0;
+        while i < SET_CAP {
+            if i < SET_N && SET[i] == v {
+                return false;
+            }
+            i += 1;
+        }
+        assert!(SET_N < SET_CAP, "harness: ghost set large enough");
+        SET[SET_N] = v;
+        SET_N += 1;
+    }
+    true
+}
+
+fn stub_hashset_len<T, S, A: std::alloc::Allocator>(_set: &HashSet<T, S, A>) -> usize {
+    unsafe { SET_N }
 }
 
 /// A proof with `n` (<= 2) signatures; signature j has tag 10+j, key tag 20+j, symbolic stake, symbolic signer slot and
@@ -94,11 +124,10 @@ struct Sym {
     stake: [u64; 2],
 }
 
-fn any_proof(max_n: usize, max_cnt: usize) -> (ConcatenationProof<MD>, Sym) {
-    let n: usize = kani::any();
-    kani::assume(n <= max_n);
-    let cnt: [usize; 2] = [kani::any(), kani::any()];
-    kani::assume(cnt[0] <= max_cnt && cnt[1] <= max_cnt);
+/// `n` signatures with `c0`, `c1` indices: the SHAPE is concrete (symbolic container sizes make CBMC's allocation /
+/// memcpy reasoning explode), every VALUE (indices, stakes, signer slots, k, m, phi_f, message, root) is symbolic.
+fn any_proof(n: usize, c0: usize, c1: usize) -> (ConcatenationProof<MD>, Sym) {
+    let cnt: [usize; 2] = [c0, c1];
     let idx: [[u64; 2]; 2] = kani::any();
     let stake: [u64; 2] = kani::any();
     let mut signatures = Vec::new();
@@ -173,21 +202,23 @@ macro_rules! c01_stubs {
         #[kani::stub(crate::signature_scheme::bls_multi_signature::signature::BlsSignature::verify_aggregate, stub_verify_aggregate)]
         #[kani::stub(std::backtrace::Backtrace::capture, stub_backtrace)]
         #[kani::stub(std::hash::RandomState::new, stub_random_state)]
+        #[kani::stub(std::collections::HashSet::insert, stub_hashset_insert)]
+        #[kani::stub(std::collections::HashSet::len, stub_hashset_len)]
         #[kani::stub(alloc::fmt::format, stub_format)]
         $(#[$m])*
         fn $name() $body
     };
 }
 
-fn check_preliminary_verify(max_n: usize, max_cnt: usize) {
-    let (proof, s) = any_proof(max_n, max_cnt);
+fn check_preliminary_verify(n: usize, c0: usize, c1: usize) {
+    let (proof, s) = any_proof(n, c0, c1);
     let params = any_params();
     let msg: [u8; 1] = kani::any();
     let (root, total): (u8, u64) = (kani::any(), kani::any());
     let avk = make_avk::<MD>(vec![root], 4, total);
     let r = proof.preliminary_verify(&msg, &avk, &params);
     if let Ok((sigs, vks)) = &r {
-        kani::cover!(s.n == max_n && s.cnt[0] == max_cnt, "accepts a proof of the maximal shape");
+        kani::cover!(true, "a proof of this shape can be accepted");
         assert!(preliminary_post(&proof, &s, &params, msg[0], root, total), "C01 preliminary_verify: >= k distinct indices in [0,m), each won by its committed (key, stake); membership checked");
         // returned operands for the aggregate check are exactly (sigma_j, vk_j) in order
         assert!(sigs.len() == s.n && vks.len() == s.n, "C01 one (signature, key) pair per contained signature");
@@ -200,8 +231,8 @@ fn check_preliminary_verify(max_n: usize, max_cnt: usize) {
     std::mem::forget(r);
 }
 
-fn check_verify(max_n: usize, max_cnt: usize) {
-    let (proof, s) = any_proof(max_n, max_cnt);
+fn check_verify(n: usize, c0: usize, c1: usize) {
+    let (proof, s) = any_proof(n, c0, c1);
     let params = any_params();
     let msg: [u8; 1] = kani::any();
     let (root, total): (u8, u64) = (kani::any(), kani::any());
@@ -210,7 +241,7 @@ fn check_verify(max_n: usize, max_cnt: usize) {
     let ok = r.is_ok();
     std::mem::forget(r);
     if ok {
-        kani::cover!(s.n == max_n, "accepts a proof with the maximal number of signatures");
+        kani::cover!(true, "a proof of this shape can be accepted");
         assert!(preliminary_post(&proof, &s, &params, msg[0], root, total), "C01 verify: preliminary checks hold");
         let want = AggVerifyCall {
             msg_len: 2, msg0: msg[0], msg_last: root, n: s.n,
@@ -223,32 +254,56 @@ fn check_verify(max_n: usize, max_cnt: usize) {
 }
 
 c01_stubs! {
-    #[kani::unwind(8)]
-    fn c01_preliminary_verify_1x2() {
-        check_preliminary_verify(1, 2);
+    #[kani::unwind(11)]
+    fn c01_preliminary_verify_n0_0_0() {
+        check_preliminary_verify(0, 0, 0);
     }
 }
 c01_stubs! {
-    #[kani::unwind(8)]
-    fn c01_preliminary_verify_2x1() {
-        check_preliminary_verify(2, 1);
+    #[kani::unwind(11)]
+    fn c01_preliminary_verify_n1_1_0() {
+        check_preliminary_verify(1, 1, 0);
     }
 }
 c01_stubs! {
-    #[kani::unwind(8)]
-    fn c01_verify_2x1() {
-        check_verify(2, 1);
+    #[kani::unwind(11)]
+    fn c01_preliminary_verify_n1_2_0() {
+        check_preliminary_verify(1, 2, 0);
     }
 }
 c01_stubs! {
-    #[kani::unwind(8)]
-    fn c01_preliminary_verify_2x2() {
-        check_preliminary_verify(2, 2);
+    #[kani::unwind(11)]
+    fn c01_preliminary_verify_n2_1_1() {
+        check_preliminary_verify(2, 1, 1);
     }
 }
 c01_stubs! {
-    #[kani::unwind(8)]
-    fn c01_verify_2x2() {
-        check_verify(2, 2);
+    #[kani::unwind(11)]
+    fn c01_preliminary_verify_n2_2_1() {
+        check_preliminary_verify(2, 2, 1);
+    }
+}
+c01_stubs! {
+    #[kani::unwind(11)]
+    fn c01_preliminary_verify_n2_2_2() {
+        check_preliminary_verify(2, 2, 2);
+    }
+}
+c01_stubs! {
+    #[kani::unwind(11)]
+    fn c01_verify_n1_1_0() {
+        check_verify(1, 1, 0);
+    }
+}
+c01_stubs! {
+    #[kani::unwind(11)]
+    fn c01_verify_n2_1_1() {
+        check_verify(2, 1, 1);
+    }
+}
+c01_stubs! {
+    #[kani::unwind(11)]
+    fn c01_verify_n2_2_1() {
+        check_verify(2, 2, 1);
     }
 }
